@@ -46,6 +46,8 @@ type Ctx struct {
 	Tier  string
 	Seed  int64
 	Level string
+	// Replay is the path of a replay file when the check is asked to re-run one case.
+	Replay string
 
 	mu           sync.Mutex
 	start        time.Time
@@ -94,6 +96,9 @@ func (c *Ctx) Rule(rule, evalCounter, distinctSet string) {
 	c.rule, c.evalKey, c.distinctKey = rule, evalCounter, distinctSet
 	c.mu.Unlock()
 }
+
+// DistinctKey returns the name of the set that feeds distinct_nontrivial.
+func (c *Ctx) DistinctKey() string { c.mu.Lock(); defer c.mu.Unlock(); return c.distinctKey }
 
 func (c *Ctx) Assume(s ...string) {
 	c.mu.Lock()
